@@ -1,19 +1,59 @@
 package main
 
 import (
+	"bufio"
 	"bytes"
 	"crypto"
 	"crypto/x509"
 	"encoding/binary"
 	"fmt"
+	"io"
 	"os"
 	"path/filepath"
 	"strings"
+	"testing/iotest"
 	"time"
 
 	"github.com/foxboron/go-uefi/authenticode"
+	"github.com/foxboron/go-uefi/efi/signature"
 	"github.com/foxboron/go-uefi/pkcs7"
 )
+
+// streamKinds are the kinds of io.Reader through which callers hand a byte string to the decoders
+// that take an io.Reader. They differ in what they offer besides Read (Len, Size, Seek, ReadAt,
+// Stat, buffering, nothing at all) and in how much one Read delivers, so a decoder that sizes or
+// bounds its work through one of these extras is also seen on the readers that lack it.
+var streamKinds = []string{"bytes.Reader", "bytes.Buffer", "bufio.Reader", "io.SectionReader", "os.File", "io.Pipe", "read-only", "one-byte"}
+
+// streamOf returns b as a reader of the given kind; done releases what the reader holds.
+func streamOf(kind string, b []byte) (r io.Reader, done func()) {
+	done = func() {}
+	switch kind {
+	case "bytes.Buffer":
+		return bytes.NewBuffer(append([]byte{}, b...)), done
+	case "bufio.Reader":
+		return bufio.NewReaderSize(bytes.NewReader(b), 16), done
+	case "io.SectionReader":
+		return io.NewSectionReader(bytes.NewReader(b), 0, int64(len(b))), done
+	case "os.File": // an open file that is already unlinked: nothing is left behind if the process dies
+		if f, err := os.CreateTemp("", "vcheck-stream-"); err == nil {
+			os.Remove(f.Name())
+			f.Write(b)
+			f.Seek(0, io.SeekStart)
+			return f, func() { f.Close() }
+		}
+		return struct{ io.Reader }{bytes.NewReader(b)}, done
+	case "io.Pipe": // a stream whose length nobody knows before its end
+		pr, pw := io.Pipe()
+		go func() { pw.Write(b); pw.Close() }()
+		return pr, func() { pr.Close() }
+	case "read-only": // nothing but Read
+		return struct{ io.Reader }{bytes.NewReader(b)}, done
+	case "one-byte":
+		return iotest.OneByteReader(bytes.NewReader(b)), done
+	}
+	return bytes.NewReader(b), done
+}
 
 func init() {
 	// image entry points: Parse, Signatures, Hash, Bytes, Verify
@@ -44,6 +84,16 @@ func init() {
 			out += fmt.Sprintf(" verify-%v-%s", ok, errCls(err))
 		}
 		return "ok", out
+	}
+	// the WIN_CERTIFICATE that wraps a signature in the certificate table, from any kind of io.Reader
+	workerOps["wincert.all"] = func(a map[string]string) (string, string) {
+		r, done := streamOf(a["reader"], unhx(a["b"]))
+		defer done()
+		w, err := signature.ReadWinCertificate(r)
+		if err != nil {
+			return "err", ""
+		}
+		return "ok", fmt.Sprintf("len=%d rev=%d type=%d cert=%s", w.Length, w.Revision, uint16(w.CertType), hx(w.Certificate))
 	}
 	// signature entry points: ParsePKCS7, ParseAuthenticode, Verify
 	workerOps["p7.all"] = func(a map[string]string) (string, string) {
@@ -80,14 +130,22 @@ func c13Eval(c *Ctx, cs Case) {
 	}
 	if c13Worker == nil {
 		c13Worker = c.NewWorker(3<<20, "GOMEMLIMIT=2GiB")
+		c13Worker.MaxTimeouts = 3 // a library that hangs on every input costs 3 timeouts, not one per input
 	}
-	res := c13Worker.Do(ep, map[string]string{"b": hx(b), "cert": cs.S("cert")}, 15*time.Second)
+	// the time an input may take is proportional to its size (limit); a worker that is still silent after
+	// ten times that is taken to hang and is killed
+	limit := int64(500 + len(b)/1000)
+	res := c13Worker.Do(ep, map[string]string{"b": hx(b), "cert": cs.S("cert"), "reader": cs.S("reader")}, time.Duration(10*limit)*time.Millisecond)
+	if res.Class == "not-run" { // the worker gave up after repeated timeouts, which are reported
+		c.Class("untrusted/" + ep + "/not-run-after-timeouts")
+		return
+	}
 	c.Count(cs.Key(), len(b) > 0, "untrusted/"+ep+"/"+cs.S("class")+"/"+res.Class)
 	if len(b) < 100 {
 		c.Sample(cs)
 	}
 	fail := func(what, matcher string) {
-		c.Fail(Failure{Kind: "property", Matcher: matcher, What: ep + " (" + cs.S("class") + "): " + what, Case: cs, Go: fmt.Sprintf("%s alloc=%d ms=%d %s %s", res.Class, res.Alloc, res.Ms, res.Panic, res.Out)})
+		c.Fail(Failure{Kind: "property", Matcher: matcher, What: ep + " (" + cs.S("class") + "): " + what, Case: cs, Go: fmt.Sprintf("%s alloc=%d ms=%d %s %s", res.Class, res.Alloc, res.Ms, res.Panic, clip(res.Out))})
 	}
 	// memory proportional to the input: parsing keeps a few copies of the file (debug/pe, the rest
 	// buffer, Bytes(), the discard pass) and DER parsing allocates per element
@@ -97,7 +155,7 @@ func c13Eval(c *Ctx, cs Case) {
 		if res.Alloc > budget {
 			fail(fmt.Sprintf("allocated %d bytes for a %d-byte input", res.Alloc, len(b)), "c13.alloc")
 		}
-		if limit := int64(500 + len(b)/1000); res.Ms > limit { // time proportional to the input: 1 µs per byte + 0.5 s
+		if res.Ms > limit { // time proportional to the input: 1 µs per byte + 0.5 s
 			fail(fmt.Sprintf("took %d ms for a %d-byte input (limit %d ms: time must be proportional to the input size)", res.Ms, len(b), limit), "c13.time")
 		}
 	case "panic":
@@ -107,9 +165,20 @@ func c13Eval(c *Ctx, cs Case) {
 	case "oom":
 		fail(fmt.Sprintf("ran out of memory on a %d-byte input (allocation unrelated to the input size)", len(b)), "c13.alloc")
 	case "timeout":
-		fail("did not finish", "")
+		fail(fmt.Sprintf("did not finish: no answer %d ms after a %d-byte input was handed over (limit %d ms), the worker was killed", res.Ms, len(b), limit), "c13.hang")
 	}
 	// correspondence: outcome class of the Lean models where they exist
+	if ep == "wincert.all" && (res.Class == "ok" || res.Class == "err") {
+		// what is decoded does not depend on the kind of reader: the model reads the same bytes
+		c.Trace()
+		m := c.Drv.Ask("wincert.read", hx(b))
+		if i := strings.Index(m, " rest="); i >= 0 {
+			m = m[:i]
+		}
+		if got := strings.TrimSpace(res.Class + " " + res.Out); m != got {
+			c.Fail(Failure{Kind: "tie", What: "ReadWinCertificate: result differs from the Lean model", Case: cs, Model: clip(m), Go: clip(got)})
+		}
+	}
 	if ep == "p7.all" && (res.Class == "ok") {
 		c.Trace()
 		certsOk := "1"
@@ -164,7 +233,10 @@ func c13ImageMutants(c *Ctx, img []byte, emit func(class string, b []byte)) {
 		emit("NumberOfRvaAndSizes", set32(ndirsOff, v))
 		emit("certdir-address", set32(dd, v))
 		emit("certdir-size", set32(dd+4, v))
-		for i := 0; i < nsec && i < 3; i++ {
+		for i := 0; i < nsec; i++ {
+			if i >= 3 && i != nsec-1 { // the first three and the last section
+				continue
+			}
 			emit("section-size", set32(secTab+40*i+16, v))
 			emit("section-offset", set32(secTab+40*i+20, v))
 		}
@@ -196,6 +268,31 @@ func c13ImageMutants(c *Ctx, img []byte, emit func(class string, b []byte)) {
 			emit("wincert-dwLength", set32(va, v))
 		}
 	}
+}
+
+// c13InProcess runs a step of the generator in which the library works on valid inputs in this
+// process. Unlike a worker, a step that never returns cannot be killed: it is reported and the run ends
+// (the process exits with the report while the step is still spinning).
+func c13InProcess(c *Ctx, what string, f func()) bool {
+	d := time.Duration(c.P(60, 900)) * time.Second
+	done := make(chan struct{})
+	go func() { defer close(done); f() }()
+	select {
+	case <-done:
+		return true
+	case <-time.After(d):
+		c.Fail(Failure{Kind: "property", Matcher: "c13.hang", What: fmt.Sprintf("%s did not finish within %v (in the harness process itself: no input to replay, the rest of the run was not executed)", what, d),
+			Case: Case{"op": "untrusted", "ep": "in-process", "class": "valid"}})
+		return false
+	}
+}
+
+func mkWinCert(dw uint32, rev, typ uint16, body []byte) []byte {
+	b := make([]byte, 8, 8+len(body))
+	binary.LittleEndian.PutUint32(b, dw)
+	binary.LittleEndian.PutUint16(b[4:], rev)
+	binary.LittleEndian.PutUint16(b[6:], typ)
+	return append(b, body...)
 }
 
 // a PE32+ image whose nsec section headers all point at the same `size` bytes
@@ -243,15 +340,22 @@ func c13Gen(c *Ctx) {
 			images = append(images, b)
 		}
 	}
-	for i := 0; i < c.N(2, 40); i++ {
-		s := genPeSpec(c, false)
-		s.CertBodies = nil
-		img := buildPE(s).img
-		if signed, _, err := signImage(c, img, 0); err == nil {
-			images = append(images, signed)
-		} else {
-			images = append(images, img)
+	// the seed images and blobs are signed by the library in this process (valid inputs)
+	var seeds []p7Seed
+	if !c13InProcess(c, "parsing and signing the valid generated images and signature blobs", func() {
+		for i := 0; i < c.N(2, 40); i++ {
+			s := genPeSpec(c, false)
+			s.CertBodies = nil
+			img := buildPE(s).img
+			if signed, _, err := signImage(c, img, 0); err == nil {
+				images = append(images, signed)
+			} else {
+				images = append(images, img)
+			}
 		}
+		seeds = p7Seeds(c, false)
+	}) {
+		return
 	}
 	if c.Thorough {
 		if b, err := os.ReadFile(filepath.Join(c.RepoDir, "tests/data/binary/HelloWorld.efi.signed")); err == nil {
@@ -264,11 +368,57 @@ func c13Gen(c *Ctx) {
 	}
 	emit("pe.all", "empty", nil)
 	emit("pe.all", "mz-only", []byte("MZ"))
+	// WIN_CERTIFICATEs (the wrapper of a signature in the certificate table): the entries of the signed
+	// images and signature blobs in a fresh wrapper, handed to ReadWinCertificate through every kind of
+	// io.Reader, with dwLength swept below, at and far beyond the data that follow the header
+	var wcs [][]byte
+	for _, img := range images {
+		if t := tableOf(img); len(t) >= 8 {
+			if dw := int(binary.LittleEndian.Uint32(t)); dw >= 8 && dw <= len(t) {
+				wcs = append(wcs, t[:dw])
+			}
+		}
+	}
+	for i, sd := range seeds {
+		if i%7 == 0 {
+			wcs = append(wcs, mkWinCert(uint32(8+len(sd.blob)), 0x0200, 0x0002, sd.blob))
+		}
+	}
+	wcs = append(wcs, mkWinCert(8, 0x0200, 0x0002, nil), mkWinCert(24, 0x0200, 0x0EF1, randBytes(c, 16)))
+	if n := c.P(4, 40); len(wcs) > n {
+		wcs = append(wcs[:n-2:n-2], wcs[len(wcs)-2:]...)
+	}
+	for _, wc := range wcs {
+		for _, kind := range streamKinds {
+			emitWC := func(class string, b []byte) {
+				if c.NFailures() < 40 {
+					c13Eval(c, Case{"op": "untrusted", "ep": "wincert.all", "class": class, "reader": kind, "cert": "-", "b": hx(b)})
+				}
+			}
+			emitWC("valid", wc)
+			emitWC("valid+trailing", append(append([]byte{}, wc...), randBytes(c, 1+c.Rng.Intn(24))...))
+			n := uint32(len(wc))
+			for _, v := range []uint32{0, 1, 7, 8, 9, n - 1, n, n + 1, n + 8, 2 * n, 1 << 16, 1 << 20, 1 << 24, 1 << 28, 0x7fffffff, 0x80000000, 0x80000008, 0xfffffff8, 0xffffffff} {
+				m := putU32(wc, 0, v)
+				emitWC("wincert-dwLength", m)
+				if len(m) > 24 { // little data behind a header that declares a lot
+					emitWC("wincert-dwLength/short-body", m[:8+c.Rng.Intn(17)])
+				}
+			}
+			for cut := 0; cut < len(wc); cut += 1 + len(wc)/12 {
+				emitWC("truncated", wc[:cut])
+			}
+			for _, rev := range []uint16{0, 0x0100, 0x0201, 0xffff} {
+				m := append([]byte{}, wc...)
+				binary.LittleEndian.PutUint16(m[4:], rev)
+				emitWC("wincert-revision", m)
+			}
+		}
+	}
 	// many section headers that all name the same large range: the hashed stream is nsec x size
 	c13Eval(c, Case{"op": "untrusted", "ep": "pe.all", "class": "many-overlapping-sections", "cert": hx(cert.Raw), "b": "-", "overlap_nsec": int64(c.P(5000, 12000)), "overlap_size": int64(1 << 20)})
 	c13Eval(c, Case{"op": "untrusted", "ep": "pe.all", "class": "many-overlapping-sections", "cert": hx(cert.Raw), "b": "-", "overlap_nsec": int64(200), "overlap_size": int64(64 << 10)})
 	// signatures
-	seeds := p7Seeds(c, false)
 	for i, s := range seeds {
 		if !c.Thorough && i%3 != 0 {
 			continue
@@ -304,8 +454,8 @@ func c13Gen(c *Ctx) {
 
 func init() {
 	register("C13", &PropDef{
-		Rule:   "image entry points (Parse, Signatures, Hash, Bytes, Verify) and signature entry points (ParsePKCS7, ParseAuthenticode, both Verifys) in a sandboxed worker process (address-space limit, per-input timeout, TotalAlloc delta). Images: repository binaries and generated signed images under sweeps of e_lfanew, SizeOfOptionalHeader, NumberOfSections, NumberOfRvaAndSizes, SizeOfHeaders, section offsets/sizes (incl. overlap, 2^31, 2^32-1), certificate directory address/size beyond the file, WIN_CERTIFICATE dwLength (<8, huge), every ~2% truncation point, random header bytes. Signatures: library/fixture/CMS-shaped blobs under bit flips, per-leaf flips, structural DER edits, targeted forgeries (incl. dropped signed attributes), oversized and truncated lengths; each verified with the certificate its signer entry names and, for a quarter, with a stranger's. Non-trivial: non-empty input; distinct = distinct inputs.",
-		Assume: []string{"allocation budget 64 bytes per input byte + 4 MiB; time limit 5 s per input", "wall-clock time and resident memory are runtime facts measured on the sampled inputs only"},
+		Rule:   "image entry points (Parse, Signatures, Hash, Bytes, Verify) and signature entry points (ParsePKCS7, ParseAuthenticode, both Verifys) in a sandboxed worker process (address-space limit, per-input timeout, TotalAlloc delta). Images: repository binaries and generated signed images under sweeps of e_lfanew, SizeOfOptionalHeader, NumberOfSections, NumberOfRvaAndSizes, SizeOfHeaders, section offsets/sizes (incl. overlap, 2^31, 2^32-1), certificate directory address/size beyond the file, WIN_CERTIFICATE dwLength (<8, huge), every ~2% truncation point, random header bytes; the section sweeps cover the first three and the last section header (raw data at / beyond the end of the file included). WIN_CERTIFICATEs (certificate-table entries of the signed images, signature blobs in a fresh wrapper, an empty and a GUID-typed one) are read by ReadWinCertificate through 8 kinds of io.Reader (bytes.Reader, bytes.Buffer, bufio.Reader, io.SectionReader, an open os.File, io.Pipe, a reader with no method but Read, a one-byte reader) with dwLength in {0,1,7,8,9,n-1,n,n+1,n+8,2n,2^16,2^20,2^24,2^28,2^31-1,2^31,2^32-8,2^32-1} over the full body and over 0..16 bytes of body, truncations and wrong revisions; the same time/memory oracle, and the decoded fields are compared with the Lean model of the reader for every kind. Signatures: library/fixture/CMS-shaped blobs under bit flips, per-leaf flips, structural DER edits, targeted forgeries (incl. dropped signed attributes), oversized and truncated lengths; each verified with the certificate its signer entry names and, for a quarter, with a stranger's. Non-trivial: non-empty input; distinct = distinct inputs.",
+		Assume: []string{"allocation budget 64 bytes per input byte + 4 MiB; time limit 0.5 s + 1 µs per input byte; an input that got no answer after ten times its limit (at least 5 s) is reported as hanging and the worker is killed; after 3 such inputs the rest of the run is not executed (class not-run-after-timeouts)", "wall-clock time and resident memory are runtime facts measured on the sampled inputs only"},
 		Eval:   c13Eval, Gen: c13Gen,
 	})
 }
